@@ -218,6 +218,161 @@ theorem copyOne_single_scalar (hitB : String → Node → Bool) (ns : String →
   · split at h <;> simp at h
   · simp at h
 
+
+theorem apart_of_head_ne (a b : Step) (p q : Pos) (h : a ≠ b) : Apart (a :: p) (b :: q) := by
+  constructor
+  · intro hp; simp at hp; exact h hp.1
+  · intro hq; simp at hq; exact h hq.1.symm
+
+theorem apart_cons_iff (a : Step) (p q : Pos) (h : Apart p q) : Apart (a :: p) (a :: q) := by
+  constructor
+  · intro hp; exact h.1 (by simpa using hp)
+  · intro hq; exact h.2 (by simpa using hq)
+
+theorem pairwise_map_cons (a : Step) (l : List Pos) (h : l.Pairwise Apart) :
+    (l.map (a :: ·)).Pairwise Apart := by
+  induction l with
+  | nil => simp
+  | cons x xs ih =>
+    simp only [List.map_cons, List.pairwise_cons] at h ⊢
+    refine ⟨?_, ih h.2⟩
+    intro y hy
+    simp at hy
+    obtain ⟨z, hz, e⟩ := hy
+    subst e
+    exact apart_cons_iff a x z (h.1 z hz)
+
+theorem denoteElems_heads (sel : Node → Bool) (sub : Node → List Pos) :
+    ∀ (is : List Node) (i : Nat), ∀ p ∈ denoteElems sel sub i is, ∃ k q, i ≤ k ∧ p = Step.idx k :: q := by
+  intro is
+  induction is with
+  | nil => intro i p h; simp [denoteElems] at h
+  | cons e es ih =>
+    intro i p h
+    simp only [denoteElems, List.mem_append] at h
+    rcases h with h | h
+    · split at h
+      · simp at h; obtain ⟨q, _, e1⟩ := h; exact ⟨i, q, Nat.le_refl _, e1.symm⟩
+      · simp at h
+    · obtain ⟨k, q, hk, e1⟩ := ih (i + 1) p h
+      exact ⟨k, q, by omega, e1⟩
+
+theorem denoteElems_pairwise (sel : Node → Bool) (sub : Node → List Pos) (hsub : ∀ e, (sub e).Pairwise Apart) :
+    ∀ (is : List Node) (i : Nat), (denoteElems sel sub i is).Pairwise Apart := by
+  intro is
+  induction is with
+  | nil => intro i; simp [denoteElems]
+  | cons e es ih =>
+    intro i
+    simp only [denoteElems]
+    rw [List.pairwise_append]
+    refine ⟨?_, ih (i + 1), ?_⟩
+    · split
+      · exact pairwise_map_cons _ _ (hsub e)
+      · simp
+    · intro p hp q hq
+      obtain ⟨k, q', hk, e2⟩ := denoteElems_heads sel sub es (i + 1) q hq
+      split at hp
+      · simp at hp
+        obtain ⟨p', _, e1⟩ := hp
+        subst e1; subst e2
+        exact apart_of_head_ne _ _ _ _ (by intro e; cases e; omega)
+      · simp at hp
+
+/-- the positions a path denotes never lie on one another's way -/
+theorem denote_pairwise (hitB : String → Node → Bool) : ∀ (p : List String) (d : Node), (denote hitB p d).Pairwise Apart := by
+  intro p
+  induction p with
+  | nil => intro d; simp [denote]
+  | cons part rest ih =>
+    intro d
+    unfold denote
+    split
+    · unfold denoteIdx
+      split
+      · split
+        · exact pairwise_map_cons _ _ (ih _)
+        · simp
+      · simp
+    · split
+      · unfold denoteSel
+        split
+        · split
+          · exact denoteElems_pairwise _ _ (by intro e; simp) _ _
+          · exact denoteElems_pairwise _ _ (fun e => ih e) _ _
+        · simp
+      · split
+        · unfold denoteStar
+          split
+          · exact denoteElems_pairwise _ _ (fun e => ih e) _ _
+          · simp
+        · unfold denoteField
+          split
+          · split
+            · exact pairwise_map_cons _ _ (ih _)
+            · simp
+          · simp
+
+/-- writing a list of mutually apart positions: each of them ends up holding what `setFieldValue` makes of the node
+    that was there -/
+theorem writeAll_each (o : Option Opts) (value : Node) : ∀ (ps : List Pos) (d d' : Node), ps.Pairwise Apart →
+    writeAll o value ps d = .ok d' →
+    ∀ p ∈ ps, ∃ t t', getAt p d = some t ∧ setFieldValue o t value = .ok t' ∧ getAt p d' = some t' := by
+  intro ps
+  induction ps with
+  | nil => intro d d' _ _ p hp; simp at hp
+  | cons q qs ih =>
+    intro d d' hpw h p hp
+    simp only [writeAll] at h
+    simp only [List.pairwise_cons] at hpw
+    split at h
+    · rename_i d1 h1
+      simp at hp
+      rcases hp with e | hp
+      · subst e
+        obtain ⟨t, t', e1, e2, e3⟩ := modifyAt_same _ p d d1 h1
+        refine ⟨t, t', e1, e2, ?_⟩
+        rw [writeAll_frame o value qs d1 d' h p (fun q' hq' => by
+          have := hpw.1 q' hq'; exact ⟨this.2, this.1⟩)]
+        exact e3
+      · obtain ⟨t, t', e1, e2, e3⟩ := ih d1 d' hpw.2 h p hp
+        refine ⟨t, t', ?_, e2, e3⟩
+        rw [← e1]
+        exact (modifyAt_frame _ q d d1 h1 p (hpw.1 p hp)).symm
+    · simp at h
+    · simp at h
+
+/-- **verbatim into exactly the selected fields.** One target field path, no creation, no delimiter: after
+    `copyValueToTarget` EVERY scalar field the path denotes holds the value's text (with the field's own tag and style),
+    and (by `copyOne_frame`) every position apart from the denoted ones is untouched. -/
+theorem copyOne_every_scalar (hitB : String → Node → Bool) (ns : String → Bool) (o : Option Opts)
+    (hc : ∀ o', o = some o' → o'.create = false) (hd : ∀ o', o = some o' → o'.delim = "")
+    (value : Node) (path : List String) (hp : "" ∉ path) (doc d' : Node)
+    (h : copyOne (fun a b => .ok (hitB a b)) ns o value path doc = .ok d') :
+    ∀ p ∈ denote hitB path doc, ∀ t v s, getAt p doc = some (.scalar t v s) →
+      getAt p d' = some (.scalar t value.valueText s) := by
+  unfold copyOne at h
+  have hck : createKind o value = 0 := by
+    cases o with
+    | none => rfl
+    | some o' => simp [createKind, hc o' rfl]
+  rw [hck] at h
+  split at h
+  · rename_i dm ps hm
+    have e1 := Kust.C14.match_nocreate_doc _ ns path doc dm ps hm
+    have e2 := Kust.C14.match_denotes hitB ns path hp doc dm ps hm
+    subst e1; subst e2
+    split at h
+    · simp at h
+    · intro p hpm t v s hat
+      obtain ⟨t0, t', e1, e2, e3⟩ := writeAll_each o value _ _ _ (denote_pairwise hitB path dm) h p hpm
+      rw [hat] at e1; cases e1
+      rw [setFieldValue_scalar o hd] at e2
+      cases e2
+      exact e3
+  · split at h <;> simp at h
+  · simp at h
+
 /-- the premises are satisfiable: `spec.containers.[name=a].image` in a two-container list denotes one scalar -/
 example :
     let hitB : String → Node → Bool := fun pat n => match n with | .scalar _ v _ => v = pat | _ => false
